@@ -14,6 +14,16 @@ from pysym.harness import harness
 
 OPTS = ('none', 'bind', 'global', 'global+bind', 'nonlocal', 'nonlocal+bind')
 KINDS = ('def', 'class')
+# other statements that make x a local of the scope they stand in (language reference 4.2.1 "binding of names"); `real`: an object is bound
+FORMS = {
+    'aug': ('x += 1', False), 'ann': ('x: int', False), 'ann-value': ('x: int = 1', True), 'del': ('del x', False),
+    'for': ('for x in []: pass', True), 'with': ('with cm() as x: pass', True), 'except': ('try: pass\nexcept E as x: pass', False),
+    'import': ('import x', True), 'import-as': ('import os as x', True), 'from-import': ('from os import x', True),
+    'def': ('def x(): pass', True), 'class': ('class x: pass', True), 'walrus': ('print((x := 1))', True),
+    'tuple': ('(x, _o) = 1, 2', True), 'match': ('match p:\n    case x: pass', True), 'match-as': ('match p:\n    case str() as x: pass', True),
+    'match-star': ('match p:\n    case [_o, *x]: pass', True), 'match-rest': ('match p:\n    case {1: _o, **x}: pass', True),
+    'try-star': ('try: pass\nexcept* E as x: pass', False), 'comprehension': ('print([0 for _o in [] if (x := 1)])', True),
+}
 
 
 def render(chain, module_binds, leaf_lambda):
@@ -39,6 +49,15 @@ def render(chain, module_binds, leaf_lambda):
         reads[emit(ind + 1, 'use(x)')] = sid
         if opt.endswith('bind'):
             binds[emit(ind + 1, 'x = %d' % sid)] = sid
+        if opt.startswith('form:'):
+            text, real = FORMS[opt[5:]]
+            first = None
+            for t in text.split('\n'):
+                ln = emit(ind + 1, t)
+                if 'x' in t.replace('except', '').replace('pass', '') or first is None:
+                    first = ln if first is None else first
+                    if ' x' in t or t.startswith('x') or '(x' in t or '*x' in t:
+                        binds[ln] = sid
         reads[emit(ind + 1, 'use(x)')] = sid
         if i + 1 < len(chain):
             level(i + 1, ind + 1)
@@ -139,6 +158,41 @@ print(%(verdict)r)
 '''
 
 
+def check_module(text, chain, reads, binds, headers, path):
+    owner, tkinds = compiler_owner(text, chain, headers)
+    # semantic owner of every binding line: the scope the compiler gives x in the scope that contains the line
+    bind_owner = {ln: owner.get(sid) for ln, sid in binds.items()}
+    view = supp_view(text)
+    bad = None
+    for ln, sid in sorted(reads.items(), key=lambda kv: kv[0]):
+        own = owner.get(sid)
+        if tkinds.get(sid) == 'class' and own == sid:
+            continue            # the class binds x itself: outside the comparison
+        got = view.get(ln, 'missing')
+        if got == 'missing':
+            bad = (ln, 'the read is not analysed', own, got)
+            break
+        if got is None:
+            continue            # not visible: C05 constrains only what IS resolved (visibility is C01)
+        for d in got:
+            bo = bind_owner.get(d[0], 'unknown-line')
+            if bo != own:
+                bad = (ln, 'resolved to a binding of another scope', own, got)
+                break
+        if bad:
+            break
+    if bad:
+        ln, why, own, got = bad
+        core.RUN.concretise = lambda model, ob, text=text, ln=ln, why=why, own=own: {'input': text, 'script': REPLAY % {
+            'repo': core.REPO, 'text': text, 'line': ln,
+            'verdict': 'REPRODUCED: %s (the compiler resolves x there to scope #%r; 0 = module, k = k-th nested scope)' % (why, own)}}
+    prove('resolves-to-the-compilers-scope', bad is None,
+          clause='every binding supp gives a read of x belongs to the scope the compiler resolves x to%s' % (
+              '' if bad is None else ' [line %d: %s; compiler scope %r; supp bindings %r]\n%s' % (bad[0], bad[1], bad[2], bad[3], text)),
+          path=path)
+    core.RUN.concretise = None
+
+
 @harness(['C05'], 'supp.nast.extract_scope + Flow.names_at [whole modules against the compiler\'s symbol tables]',
          bounded='every module  [x = 0]? ; use(x) ; S1 ; use(x)  where S1 is a chain of up to 3 nested def / class scopes (optionally ending in a '
                  'lambda), each level with one of {nothing, x = .., global x, global x + binding, nonlocal x, nonlocal x + binding} and a read '
@@ -160,39 +214,37 @@ def scopes_against_symtable(run):
                                 compile(text, '<c05>', 'exec')
                             except SyntaxError:
                                 continue
-                            owner, tkinds = compiler_owner(text, chain, headers)
-                            # semantic owner of every binding line: the scope the compiler gives x in the scope that contains the line
-                            bind_owner = {ln: owner.get(sid) for ln, sid in binds.items()}
-                            view = supp_view(text)
-                            bad = None
-                            for ln, sid in sorted(reads.items(), key=lambda kv: kv[0]):
-                                own = owner.get(sid)
-                                if tkinds.get(sid) == 'class' and own == sid:
-                                    continue            # the class binds x itself: outside the comparison
-                                got = view.get(ln, 'missing')
-                                if got == 'missing':
-                                    bad = (ln, 'the read is not analysed', own, got)
-                                    break
-                                if got is None:
-                                    continue            # not visible: C05 constrains only what IS resolved (visibility is C01)
-                                for d in got:
-                                    bo = bind_owner.get(d[0], 'unknown-line')
-                                    if bo != own:
-                                        bad = (ln, 'resolved to a binding of another scope', own, got)
-                                        break
-                                if bad:
-                                    break
                             n += 1
                             run.case = 'd%d-%d' % (depth, n)
-                            if bad:
-                                ln, why, own, got = bad
-                                core.RUN.concretise = lambda model, ob, text=text, ln=ln, why=why, own=own: {'input': text, 'script': REPLAY % {
-                                    'repo': core.REPO, 'text': text, 'line': ln,
-                                    'verdict': 'REPRODUCED: %s (the compiler resolves x there to scope #%r; 0 = module, k = k-th nested scope)' % (why, own)}}
-                            prove('resolves-to-the-compilers-scope', bad is None,
-                                  clause='every binding supp gives a read of x belongs to the scope the compiler resolves x to%s' % (
-                                      '' if bad is None else ' [line %d: %s; compiler scope %r; supp bindings %r]\n%s' % (bad[0], bad[1], bad[2], bad[3], text)),
-                                  path=path)
-                            core.RUN.concretise = None
+                            check_module(text, chain, reads, binds, headers, path)
+        run.case = None
+    core.explore(lambda: None, lambda p, out: go(p))
+
+
+@harness(['C05'], 'supp.nast.extract_scope + Flow.names_at [every statement that makes a name local, against the compiler\'s symbol tables]',
+         bounded='modules  [x = 0]? ; use(x) ; S1 ; use(x)  with S1 a chain of 1-2 nested def / class scopes where one level holds one of 20 '
+                 'binding statements for x (augmented assignment, bare and valued annotation, del, for, with, except, except*, imports, def, '
+                 'class, walrus, tuple target, match captures, walrus in a comprehension) and the other level one of {nothing, x = .., global x}')
+def binding_forms_against_symtable(run):
+    """BOUNDED stand-in: as scopes_against_symtable, for every statement form that makes x a local of its scope.  Not counted as proved."""
+    def go(path):
+        n = 0
+        for depth in (1, 2):
+            for kinds in itertools.product(KINDS, repeat=depth):
+                for pos in range(depth):
+                    for form in FORMS:
+                        for other in (('none',) if depth == 1 else ('none', 'bind', 'global')):
+                            for module_binds in (False, True):
+                                opts = [other] * depth
+                                opts[pos] = 'form:' + form
+                                chain = list(zip(kinds, opts))
+                                text, reads, binds, headers = render(chain, module_binds, False)
+                                try:
+                                    compile(text, '<c05>', 'exec')
+                                except SyntaxError:
+                                    continue
+                                n += 1
+                                run.case = 'f%d-%d' % (depth, n)
+                                check_module(text, chain, reads, binds, headers, path)
         run.case = None
     core.explore(lambda: None, lambda p, out: go(p))
